@@ -120,7 +120,7 @@ TT_FAMILIES = ['generic', 'generic', 'int', 'int', 'const', 'const2', 'pos',
     'rank1pad', 'overrank', 'deficient', 'mode1', 'd2', 'scaled', 'zero',
     'tiny', 'huge']
 QTT_FAMILIES = ['generic', 'generic', 'int', 'const', 'pos', 'shift',
-    'rank1', 'rank1', 'rank1int', 'overrank', 'zero']
+    'rank1', 'rank1', 'rank1int', 'overrank', 'zero', 'smooth', 'smooth']
 FUNC_FAMILIES = ['generic', 'generic', 'generic', 'int', 'decay', 'mode1',
     'constmode', 'trail0', 'lead0', 'n2']
 
@@ -295,6 +295,19 @@ def make_tensor(rng, family, maxN, n=None):
         ex = float(rng.choice([60, 90, 140])) * (1 if family == 'huge' else -1)
         for G in Y:
             G *= 10.0 ** (ex / d)
+    elif family == 'smooth':
+        # fibres affine (sometimes quadratic) in the grid index: samples of a
+        # smooth function, low QTT ranks, so the quantisation really truncates
+        r = gen.rand_ranks(rng, d, 4, 2)
+        Y = []
+        for k in range(d):
+            t = np.arange(n[k]) / max(1, n[k] - 1)
+            G = rng.normal(size=(r[k], 1, r[k + 1])) + \
+                rng.normal(size=(r[k], 1, r[k + 1])) * t[None, :, None]
+            if rng.random() < 0.3:
+                G = G + rng.normal(size=(r[k], 1, r[k + 1])) * \
+                    (t ** 2)[None, :, None]
+            Y.append(G)
     elif family == 'zero':
         Y = gen.cores(rng, n, r, 'normal')
         Y[int(rng.integers(d))] *= 0.
@@ -1004,7 +1017,15 @@ def case_qtt(case, ctx, teneva, rng):
             ctx.event('qtt-pruned-structure-only')
             continue
         dq = float(np.max(np.abs(qtt_to_tt_dense(zinf.A, d, q) - inf.A)))
-        if not dq <= 1e-6 * inf.M:
+        # what the quantisation may legitimately lose: truncation at e = 1e-12
+        # per split plus the sqrt(eps) resolution of its Gram-matrix SVD, each
+        # relative to the product of the core norms.  A copy that is further
+        # off is the routine's own error and buys no allowance.
+        legit = 100 * d * q * 1.5e-8 * inf.S
+        if dq > legit:
+            ctx.event('qtt-copy-off-beyond-truncation')
+            dq = legit
+        if not dq <= 1e-3 * inf.M:
             ctx.skip('qtt-exact-full', 'qtt-approximation-poor')
             continue
         # allowances: inner call exact for the quantised tensor (tolx(Zq), and
